@@ -154,6 +154,7 @@ type rbOcc struct {
 	ctx   []string // names declared by the statement in whose initialiser / bounds this occurrence sits
 	ctxKind int    // 1 local statement initialiser, 2 numeric-for bounds, 3 generic-for expression list, 4 right-hand side of an assignment to plain names
 	ctxRisky bool  // (ctxKind 4) the occurrence sits in the value that the FIRST assignment gives to a local declared empty (local x; x = f(x)), and that value as a whole is a name, a call or a function: the resolver takes it for x's initialiser
+	viaG    bool   // written as _G.name
 	ctxSafe bool   // (ctxKind 1) the occurrence sits in the initialiser expression of the very name it spells, and that expression as a whole is a name, a call or a function: the shapes the position-based resolver recognises
 }
 
@@ -222,6 +223,28 @@ func (r *rbT) use(name string, loc lexer.Location, kind int) {
 		}
 	}
 	r.occs = append(r.occs, rbOcc{name: name, loc: loc, kind: kind, decl: d, file: r.file, depth: r.depth, blk: len(r.stack), slv: r.slv(), ctx: r.ctx, ctxKind: r.ctxKind, ctxSafe: r.ctxSafeName != "" && r.ctxSafeName == name, ctxRisky: r.ctxRiskyName != "" && r.ctxRiskyName == name})
+}
+
+// viaG: `_G.name` (dot form, _G not shadowed by a local) names the global `name`, whatever locals are in scope
+func (r *rbT) viaG(e ast.Exp) (string, lexer.Location, bool) {
+	ta, ok := e.(*ast.TableAccessExp)
+	if !ok {
+		return "", lexer.Location{}, false
+	}
+	pn, ok := ta.PrefixExp.(*ast.NameExp)
+	if !ok || pn.Name != "_G" || r.resolve("_G") >= 0 {
+		return "", lexer.Location{}, false
+	}
+	key, ok := ta.KeyExp.(*ast.StringExp)
+	if !ok || key.Loc.EndColumn-key.Loc.StartColumn != len(key.Str) || key.Loc.StartLine != key.Loc.EndLine {
+		return "", lexer.Location{}, false // (bracketed string keys have other ranges; not modelled)
+	}
+	return key.Str, key.Loc, true
+}
+
+// useGlobal records an occurrence of the global `name` (no local can bind it)
+func (r *rbT) useGlobal(name string, loc lexer.Location, kind int) {
+	r.occs = append(r.occs, rbOcc{name: name, loc: loc, kind: kind, decl: -1, file: r.file, depth: r.depth, blk: len(r.stack), slv: r.slv(), ctx: r.ctx, ctxKind: r.ctxKind, viaG: true})
 }
 
 func (r *rbT) slv() int {
@@ -367,6 +390,8 @@ func (r *rbT) stat(s ast.Stat) {
 					r.decls[d].assigned = true
 				}
 				r.use(ne.Name, ne.Loc, rbOccWrite)
+			} else if name, loc, ok := r.viaG(v); ok {
+				r.useGlobal(name, loc, rbOccWrite)
 			} else {
 				r.exp(v)
 			}
@@ -441,6 +466,10 @@ func (r *rbT) exp(e ast.Exp) {
 	case *ast.FuncDefExp:
 		r.funcBody(x)
 	case *ast.TableAccessExp:
+		if name, loc, ok := r.viaG(x); ok {
+			r.useGlobal(name, loc, rbOccRead)
+			break
+		}
 		r.exp(x.PrefixExp)
 		r.exp(x.KeyExp)
 	case *ast.FuncCallExp:
@@ -559,6 +588,8 @@ var vpTemplates = []string{
 	/* 55 */ "local \x01 = 1\nlocal \x02 = 2\nreturn \x01 + \x02",
 	// locals initialised from annotated globals and the reverse (hover labels are built along the chain)
 	/* 56 */ "---@class Kx\n---@type Kx\n\x01 = {}\nlocal \x02 = \x01\nprint(\x02, \x01)\n---@type Kx\nlocal \x03 = {}\n\x04 = \x03\nprint(\x04, \x03)\n",
+	// a global reached through _G while a parameter / local of the same name is in scope
+	/* 57 */ "\x01 = 0\nfunction setv(\x02)\n _G.\x01 = \x02\n q = _G.\x02\n return _G.\x03, \x03\nend\nr = _G.\x01\n",
 }
 
 // vpInstantiate fills the holes of template t with symbolic names; tag prefixes the variable names.
